@@ -33,6 +33,8 @@ SeqAdditions(e, k) ==
      Add1(Mand(NewName(k), WithTags(TIntR(B(0), B(300), FALSE), NewTag(e, k)))),
      Add1(Def(NewName(k), WithTags(TIntN, NewTag(e, k)), B(7))),
      Add1(Opt(NewName(k), WithTags(TSeq("SEQ", <<Mand("in", TOcts(NoSz))>>, TRUE, <<>>), NewTag(e, k)))),
+     \* a large addition (> 512 octets, many fields): skipping it needs the open-type length
+     Add1(Opt(NewName(k), WithTags(TOf("SEQOF", TIntR(B(0), B(255), FALSE), Sz(600, 600, FALSE)), NewTag(e, k)))),
      AddG(<<Mand(NewName(k), WithTags(TStr("IA5", NoSz, NoAl), NewTag(e, k))),
             Opt(NewName(k) \o "b", WithTags(TNull, IF e.tagdef = "A" THEN <<>> ELSE <<Tag("C", 80 + k, "D")>>))>>) >>
 
